@@ -24,7 +24,7 @@ class Scn:
 def canon_events(evs):
     """canonical form of one step's events: tap events (f, c) as a sorted multiset, then
     the call's result, then resolved blocked calls in order"""
-    evs = [e for e in evs if e and not e.startswith('=')]
+    evs = [e for e in evs if e and not e.startswith('=') and not re.match(r'x[AB]\d+$', e)]   # x = a failed send (pick only)
     tap = sorted(e for e in evs if e[0] in 'fc')
     rest = [e for e in evs if e[0] not in 'fc']
     return tap + rest
@@ -47,7 +47,7 @@ def concretise(scn, go_steps):
         picks = []
         for side in 'AB':
             for e in evs:
-                m = re.match(r'f([AB])(\d+):', e)
+                m = re.match(r'f([AB])(\d+):', e) or re.match(r'x([AB])(\d+)$', e)
                 if m and m.group(1) == side:
                     picks.append(m.group(2))
         if picks and stp[0] in 'WXZDT':
@@ -139,7 +139,10 @@ def query_of(evs):
     q = {}
     for e in evs:
         if e.startswith('qp'):
-            q['pending'] = int(e[2:])
+            t = e[2:].split(':')
+            q['pending'] = int(t[0])
+            if len(t) == 3:
+                q['pendA'], q['pendB'] = int(t[1]), int(t[2])
         elif e.startswith('qc'):
             c, fl, la, lb = e[2:].split(':')
             q['c' + c] = dict(clA=fl[0] == '1', clB=fl[1] == '1', failed=fl[2] == '1', toA=int(la), toB=int(lb))
@@ -192,6 +195,8 @@ def shrink(ctx, scn, oracle, max_rounds=14):
 def gen_scenario(rng, sid, profile):
     """profile: 'data' (no close/fault/timer), 'close' (stream closes), 'fault' (conn failures,
     session closes, timers), 'mixed'"""
+    if profile == 'sendfail':
+        return gen_sendfail(rng, sid)
     sp = 1 if rng.random() < 0.12 else 0
     k = 1 if sp else rng.choice([1, 2, 2, 3, 4, 8])
     lim = rng.choice([600, 600, 600, 16401])
@@ -250,9 +255,17 @@ def gen_scenario(rng, sid, profile):
                 inflight['B' if side == 'A' else 'A'] += 1
             elif profile in ('fault', 'mixed'):
                 q = rng.random()
-                if q < 0.4:
+                if q < 0.25:
                     steps.append('F:%d' % rng.randrange(k))
-                elif q < 0.7:
+                elif q < 0.45:
+                    # the connection breaks but no read loop has noticed: the next send on it fails
+                    for c in (range(k) if rng.random() < 0.5 else [rng.randrange(k)]):
+                        steps.append('B:%d' % c)
+                    if rng.random() < 0.5:
+                        steps.append(rng.choice(['X:%s:%d' % (rng.choice('AB'), s), 'W:%s:%d:%s' % (rng.choice('AB'), s, pattern(99, 3))]))
+                elif q < 0.55:
+                    steps.append('N:%s:%d' % (rng.choice('AB'), rng.randrange(k)))
+                elif q < 0.75:
                     steps.append('Z:%s' % rng.choice('AB'))
                     inflight['A'] += 1; inflight['B'] += 1
                 else:
@@ -273,6 +286,54 @@ def gen_scenario(rng, sid, profile):
     steps = [x for x in steps if x]
     steps.append('Q')
     return Scn(sid, k=k, sp=sp, m=m, lim=lim, toA=toA, toB=toB, steps=steps, meta=dict(profile=profile))
+
+
+def gen_sendfail(rng, sid):
+    """a send that fails before any read loop has noticed the broken connection: streams with blocked
+    reads, then connections break (B), then a Close / Write / session Close has to send on one"""
+    k = rng.choice([1, 1, 2, 3])
+    lim = 600
+    unit = UNIT(lim)
+    steps = ['O:A']
+    nst = rng.choice([1, 1, 2, 3])
+    for _ in range(nst - 1):
+        steps.append('O:A')
+    sids = list(range(1, nst + 1))
+    tag = 0
+    for s in sids:                      # make the streams known to B
+        tag += 1
+        steps.append('W:A:%d:%s' % (s, pattern(tag, rng.choice([1, 5, unit + 3]))))
+    for _ in range(2 * nst + 2):
+        steps.append('E:B:%d' % rng.randrange(8))
+    for s in sids:
+        if rng.random() < 0.7:
+            steps.append('R:B:%d:100000' % s)        # drains what arrived
+        if rng.random() < 0.8:
+            steps.append('R:%s:%d:10' % (rng.choice('AB'), s))   # very likely blocks
+    if rng.random() < 0.5:
+        steps.append('R:A:%d:10' % rng.choice(sids))
+    broken = list(range(k)) if rng.random() < 0.7 else [rng.randrange(k)]
+    for c in broken:
+        steps.append('B:%d' % c)
+    for _ in range(rng.choice([1, 1, 2, 3])):
+        side = rng.choice('AB')
+        s = rng.choice(sids)
+        tag += 1
+        steps.append(rng.choice(['X:%s:%d' % (side, s), 'X:%s:%d' % (side, s), 'W:%s:%d:%s' % (side, s, pattern(tag, 4)), 'Z:%s' % side, 'O:A']))   # only the client opens streams (fresh ids)
+        if rng.random() < 0.3:
+            steps.append('Q')
+    for c in broken:
+        for side in 'AB':
+            if rng.random() < 0.7:
+                steps.append('N:%s:%d' % (side, c))
+    for _ in range(k + 2):
+        for side in 'BA':
+            steps.append('E:%s:%d' % (side, rng.randrange(8)))
+    for s in sids:
+        for side in 'AB':
+            steps.append('R:%s:%d:1000000' % (side, s))
+    steps.append('Q')
+    return Scn(sid, k=k, sp=0, m=rng.randrange(4), lim=lim, toA=30, toB=45, steps=steps, meta=dict(profile='sendfail'))
 
 
 # ---- generic check driver -----------------------------------------------------------------
@@ -406,7 +467,7 @@ def digest(hist):
                 closed_stream.add((f[1], int(f[2])))
         elif f[0] == 'Z':
             info['sess_close'].add(f[1])
-        elif f[0] == 'F':
+        elif f[0] in 'FBN':
             info['fail'] = True
         elif f[0] == 'T':
             info['tick'] = True
@@ -495,6 +556,17 @@ def oracle_c03(scn, hist):
     if info['after_close_write_ok']:
         i, side, sid = info['after_close_write_ok'][0]
         return ('write-after-close', 'step %d: write on stream %d succeeded at %s after %s had closed it' % (i, sid, side, side))
+    # a blocked read on a stream returns once that side has closed the stream (whatever Close returned)
+    blocked = set()
+    for i, h in enumerate(hist):
+        f = h['step'].split(':')
+        for (kind, side, sid, k, code, n, d) in h['pends']:
+            if kind == 'R':
+                blocked.discard((side, sid))
+        if f[0] == 'R' and h['ret'] and h['ret'][0] == 3:
+            blocked.add((f[1], int(f[2])))
+        if f[0] == 'X' and h['ret'] and h['ret'][0] != 6 and (f[1], int(f[2])) in blocked:
+            return ('read-left-blocked', 'step %d: %s closed stream %s (Close returned code %d) but its blocked Read has not returned' % (i, f[1], f[2], h['ret'][0]))
     quiet = not info['fail'] and not info['sess_close'] and not info['tick'] and not scn.sp and drained(hist)
     q = hist[-1]['q'] or {}
     if quiet and (q.get('A', {}).get('closed') or q.get('B', {}).get('closed')):
@@ -560,4 +632,7 @@ def oracle_c12(scn, hist):
                         return ('conn-left-open', 'session %s is closed but its end of connection %s is still open after the drain' % (side, c[1:]))
         if q['A']['closed'] and q['B']['closed'] and q.get('pending', 0) > 0:
             return ('left-blocked', '%d application calls are still blocked although both sessions are closed' % q['pending'])
+        for side in 'AB':
+            if q[side]['closed'] and q.get('pend' + side, 0) > 0:
+                return ('left-blocked', '%d application calls of side %s are still blocked although its session is closed' % (q['pend' + side], side))
     return None
